@@ -23,12 +23,22 @@ theorem addZeroRow_obl {r1 r2 : List Val} (hr : RowRel r1 r2) : Obl RowRel (addZ
   mapM'_obl hr (fun _ _ h => addV_obl h (.int 0))
 
 theorem addRows_obl {a1 a2 b1 b2 : List Val} (ha : RowRel a1 a2) (hb : RowRel b1 b2) :
-    Obl RowRel (addRows a1 b1) (addRows a2 b2) :=
-  zipWithM'_obl (fun _ _ _ _ ht hg => addV_obl ht hg) ha hb
+    Obl RowRel (addRows a1 b1) (addRows a2 b2) := by
+  unfold addRows
+  split
+  · split
+    · exact zipWithM'_obl (fun _ _ _ _ ht hg => addV_obl ht hg) ha hb
+    · exact Obl.raiseR
+  · exact Obl.raiseL
 
 theorem subRows_obl {a1 a2 b1 b2 : List Val} (ha : RowRel a1 a2) (hb : RowRel b1 b2) :
-    Obl RowRel (subRows a1 b1) (subRows a2 b2) :=
-  zipWithM'_obl (fun _ _ _ _ ht hg => subV_obl ht hg) ha hb
+    Obl RowRel (subRows a1 b1) (subRows a2 b2) := by
+  unfold subRows
+  split
+  · split
+    · exact zipWithM'_obl (fun _ _ _ _ ht hg => subV_obl ht hg) ha hb
+    · exact Obl.raiseR
+  · exact Obl.raiseL
 
 theorem iteRow_obl {c1 c2 : LinComb} (hc : lcEq c1 c2) {t1 t2 f1 f2 : List Val} (ht : RowRel t1 t2)
     (hf : RowRel f1 f2) : Obl RowRel (iteRow c1 t1 f1) (iteRow c2 t2 f2) := by
